@@ -76,7 +76,9 @@ def vary_span_si(rng, ej, *, allow_gain_mode=True, allow_eol=True, allow_policy=
     pm = power_mode if power_mode is not None else (rng.random() < 0.7 or not allow_gain_mode)
     span['power_mode'] = pm
     span['delta_power_range_db'] = pick(rng, [[-2, 3, 0.5], [0, 0, 0], [-1, 1, 0.25], [-3, 4, 1], [-2, 3, 0.1],
-                                              [-1.2, 1.8, 0.5], [-0.7, 2.1, 0.2]])
+                                              [-1.2, 1.8, 0.5], [-0.7, 2.1, 0.2],
+                                              # ranges that do not contain 0 (the offset before a ROADM is 0 all the same)
+                                              [1, 3, 0.5], [-3, -1, 0.5]])
     span['padding'] = pick(rng, [10, 10, 8, 12, 11, 6])
     span['EOL'] = pick(rng, [0, 0, 0, 0.5, 1.5]) if allow_eol else 0
     span['con_in'] = pick(rng, [0, 0, 0.5, 0.25])
